@@ -5085,6 +5085,125 @@ BadSet == {x \in {"Excl", "WordAgrees", "PickedReportsWake", "RetHonest", "NoDea
              \/ (x = "Excl" /\ ~Excl) \/ (x = "WordAgrees" /\ ~WordAgrees) \/ (x = "PickedReportsWake" /\ ~PickedReportsWake)
              \/ (x = "RetHonest" /\ ~RetHonest) \/ (x = "NoDeadRecordTouch" /\ ~NoDeadRecordTouch)
              \/ (x = "NoTouchAfterFree" /\ ~NoTouchAfterFree) \/ (x = "SleepBound" /\ ~SleepBound)}
+\* BEGIN GENERATED (tools/mkspec.py)
+KindMap == [x \in {"c0", "cs_1_ld", "cs_2_d", "cs_2_ld", "cs_3_cas", "cs_3b_l", "cs_4_st", "cs_f_st", "cs_f_v", "cs_rm_cas", "cs_rm_ld", "cs_rmq_l", "cw_10_d", "cw_10_ld", "cw_11_cas", "cw_12_ld", "cw_13_ld", "cw_14_cas", "cw_14_ld", "cw_14_st", "cw_15_st", "cw_16_d", "cw_16_ld", "cw_17_l", "cw_18_l", "cw_1_st", "cw_2_ld", "cw_3_d", "cw_3_ld", "cw_4_cas", "cw_5_ld", "cw_6_st", "cw_7_ld", "cw_8b_l", "cw_9_ld", "db_1_ld", "db_2_ld", "db_3_cas", "db_4_st", "db_5_ld", "db_6_cas", "db_d", "db_rel_l", "db_w1_ld", "db_w2_ld", "db_w_l", "dc_1_ld", "dc_2_ld", "dc_3_cas", "dc_4_st", "dc_d", "dc_w1_ld", "dc_w2_ld", "dc_w_l", "lk_1_cas", "lk_2_ld", "lk_3_cas", "ls_1_ld", "ls_2_cas", "ls_3_cas", "ls_4_st", "ls_5_ld", "ls_6_cas", "ls_7_ld", "ls_8_p", "ls_d", "mw_10_ld", "mw_11_l", "mw_11b_l", "mw_12_d", "mw_12_ld", "mw_13_l", "mw_14_l", "mw_1_ld", "mw_2_st", "mw_3_ld", "mw_4_d", "mw_4_ld", "mw_5_cas", "mw_6_ld", "mw_7_cas", "mw_8_ld", "mw_9b_l", "sw_1_r", "sw_2_pd", "ta_1_ld", "ta_2_cas", "ta_3_cas", "ta_5_ld", "ta_6_ld", "ta_7_cas", "ta_7_ld", "ta_8_st", "ta_8b_st", "ta_9_st", "ta_d", "tl_1_cas", "tl_2_ld", "tl_3_cas", "ul_1_cas", "ul_2_ld", "ul_3_cas", "us_1_ld", "us_2_cas", "us_3_cas", "us_4_ld", "us_5_cas", "us_6_st", "us_7_v", "us_after_l", "us_d", "us_merge_l", "us_pass_l", "us_rel_l", "us_rm_cas", "us_rm_ld", "us_rmq_l", "us_rs_cas", "us_rs_ld", "us_scan_l", "us_ts_cas", "us_ts_d", "us_ts_ld", "wn_10_ld", "wn_11_st", "wn_12_st", "wn_13_l", "wn_1_st", "wn_2_d", "wn_2_ld", "wn_3_cas", "wn_4_st", "wn_5_st", "wn_6_ld", "wn_7_pd", "wn_8_d", "wn_8_ld", "wn_9_cas", "ww_0_l", "ww_1_ld", "ww_2_cas", "ww_3_ld", "ww_4_cas", "ww_4b_l", "ww_5_st", "ww_6_v", "Done"} |-> CASE x = "c0" -> "c" [] x = "cs_1_ld" -> "ld" [] x = "cs_2_d" -> "d" [] x = "cs_2_ld" -> "ld" [] x = "cs_3_cas" -> "cas" [] x = "cs_3b_l" -> "local" [] x = "cs_4_st" -> "st" [] x = "cs_f_st" -> "st" [] x = "cs_f_v" -> "v" [] x = "cs_rm_cas" -> "cas" [] x = "cs_rm_ld" -> "ld" [] x = "cs_rmq_l" -> "local" [] x = "cw_10_d" -> "d" [] x = "cw_10_ld" -> "ld" [] x = "cw_11_cas" -> "cas" [] x = "cw_12_ld" -> "ld" [] x = "cw_13_ld" -> "ld" [] x = "cw_14_cas" -> "cas" [] x = "cw_14_ld" -> "ld" [] x = "cw_14_st" -> "st" [] x = "cw_15_st" -> "st" [] x = "cw_16_d" -> "d" [] x = "cw_16_ld" -> "ld" [] x = "cw_17_l" -> "local" [] x = "cw_18_l" -> "local" [] x = "cw_1_st" -> "st" [] x = "cw_2_ld" -> "ld" [] x = "cw_3_d" -> "d" [] x = "cw_3_ld" -> "ld" [] x = "cw_4_cas" -> "cas" [] x = "cw_5_ld" -> "ld" [] x = "cw_6_st" -> "st" [] x = "cw_7_ld" -> "ld" [] x = "cw_8b_l" -> "local" [] x = "cw_9_ld" -> "ld" [] x = "db_1_ld" -> "ld" [] x = "db_2_ld" -> "ld" [] x = "db_3_cas" -> "cas" [] x = "db_4_st" -> "st" [] x = "db_5_ld" -> "ld" [] x = "db_6_cas" -> "cas" [] x = "db_d" -> "d" [] x = "db_rel_l" -> "local" [] x = "db_w1_ld" -> "ld" [] x = "db_w2_ld" -> "ld" [] x = "db_w_l" -> "local" [] x = "dc_1_ld" -> "ld" [] x = "dc_2_ld" -> "ld" [] x = "dc_3_cas" -> "cas" [] x = "dc_4_st" -> "st" [] x = "dc_d" -> "d" [] x = "dc_w1_ld" -> "ld" [] x = "dc_w2_ld" -> "ld" [] x = "dc_w_l" -> "local" [] x = "lk_1_cas" -> "cas" [] x = "lk_2_ld" -> "ld" [] x = "lk_3_cas" -> "cas" [] x = "ls_1_ld" -> "ld" [] x = "ls_2_cas" -> "cas" [] x = "ls_3_cas" -> "cas" [] x = "ls_4_st" -> "st" [] x = "ls_5_ld" -> "ld" [] x = "ls_6_cas" -> "cas" [] x = "ls_7_ld" -> "ld" [] x = "ls_8_p" -> "p" [] x = "ls_d" -> "d" [] x = "mw_10_ld" -> "ld" [] x = "mw_11_l" -> "local" [] x = "mw_11b_l" -> "local" [] x = "mw_12_d" -> "d" [] x = "mw_12_ld" -> "ld" [] x = "mw_13_l" -> "local" [] x = "mw_14_l" -> "local" [] x = "mw_1_ld" -> "ld" [] x = "mw_2_st" -> "st" [] x = "mw_3_ld" -> "ld" [] x = "mw_4_d" -> "d" [] x = "mw_4_ld" -> "ld" [] x = "mw_5_cas" -> "cas" [] x = "mw_6_ld" -> "ld" [] x = "mw_7_cas" -> "cas" [] x = "mw_8_ld" -> "ld" [] x = "mw_9b_l" -> "local" [] x = "sw_1_r" -> "region" [] x = "sw_2_pd" -> "pd" [] x = "ta_1_ld" -> "ld" [] x = "ta_2_cas" -> "cas" [] x = "ta_3_cas" -> "cas" [] x = "ta_5_ld" -> "ld" [] x = "ta_6_ld" -> "ld" [] x = "ta_7_cas" -> "cas" [] x = "ta_7_ld" -> "ld" [] x = "ta_8_st" -> "st" [] x = "ta_8b_st" -> "st" [] x = "ta_9_st" -> "st" [] x = "ta_d" -> "d" [] x = "tl_1_cas" -> "cas" [] x = "tl_2_ld" -> "ld" [] x = "tl_3_cas" -> "cas" [] x = "ul_1_cas" -> "cas" [] x = "ul_2_ld" -> "ld" [] x = "ul_3_cas" -> "cas" [] x = "us_1_ld" -> "ld" [] x = "us_2_cas" -> "cas" [] x = "us_3_cas" -> "cas" [] x = "us_4_ld" -> "ld" [] x = "us_5_cas" -> "cas" [] x = "us_6_st" -> "st" [] x = "us_7_v" -> "v" [] x = "us_after_l" -> "local" [] x = "us_d" -> "d" [] x = "us_merge_l" -> "local" [] x = "us_pass_l" -> "local" [] x = "us_rel_l" -> "local" [] x = "us_rm_cas" -> "cas" [] x = "us_rm_ld" -> "ld" [] x = "us_rmq_l" -> "local" [] x = "us_rs_cas" -> "cas" [] x = "us_rs_ld" -> "ld" [] x = "us_scan_l" -> "local" [] x = "us_ts_cas" -> "cas" [] x = "us_ts_d" -> "d" [] x = "us_ts_ld" -> "ld" [] x = "wn_10_ld" -> "ld" [] x = "wn_11_st" -> "st" [] x = "wn_12_st" -> "st" [] x = "wn_13_l" -> "local" [] x = "wn_1_st" -> "st" [] x = "wn_2_d" -> "d" [] x = "wn_2_ld" -> "ld" [] x = "wn_3_cas" -> "cas" [] x = "wn_4_st" -> "st" [] x = "wn_5_st" -> "st" [] x = "wn_6_ld" -> "ld" [] x = "wn_7_pd" -> "pd" [] x = "wn_8_d" -> "d" [] x = "wn_8_ld" -> "ld" [] x = "wn_9_cas" -> "cas" [] x = "ww_0_l" -> "local" [] x = "ww_1_ld" -> "ld" [] x = "ww_2_cas" -> "cas" [] x = "ww_3_ld" -> "ld" [] x = "ww_4_cas" -> "cas" [] x = "ww_4b_l" -> "local" [] x = "ww_5_st" -> "st" [] x = "ww_6_v" -> "v" [] x = "Done" -> "none"]
+ResetAll == (* Global variables *)
+        /\ word' = 0
+        /\ queue' = <<>>
+        /\ cvword' = 0
+        /\ cvq' = <<>>
+        /\ waiting' = [w \in Waiters |-> 0]
+        /\ rmc' = [w \in Waiters |-> 0]
+        /\ cvmu' = [w \in Waiters |-> FALSE]
+        /\ wl' = [w \in Waiters |-> 0]
+        /\ wc' = [w \in Waiters |-> 0]
+        /\ sc' = [n |-> [w \in Waiters |-> w], p |-> [w \in Waiters |-> w]]
+        /\ nww' = [t \in Threads |-> 0]
+        /\ nwsem' = [t \in Threads |-> 0]
+        /\ sem' = [w \in Waiters |-> 0]
+        /\ data' = [v \in 1..NV |-> 0]
+        /\ now' = 0
+        /\ note' = FALSE
+        /\ nreg' = {}
+        /\ held' = [t \in Threads |-> 0]
+        /\ ret' = [t \in Threads |-> -1]
+        /\ sres' = [t \in Threads |-> 0]
+        /\ picked' = [t \in Threads |-> FALSE]
+        /\ sleeps' = [t \in Threads |-> 0]
+        /\ inlock' = [t \in Threads |-> FALSE]
+        /\ ip' = [t \in Threads |-> 1]
+        /\ mw' = [t \in Threads |-> 0]
+        /\ pool' = <<>>
+        /\ nalloc' = 0
+        /\ nq' = 0
+        /\ muFreed' = FALSE
+        /\ refs' = N
+        /\ nwalive' = [t \in Threads |-> FALSE]
+        /\ taint3' = FALSE
+        (* Procedure lock_slow *)
+        /\ lt_l' = [ self \in ProcSet |-> defaultInitValue]
+        /\ clear' = [ self \in ProcSet |-> defaultInitValue]
+        /\ old_' = [ self \in ProcSet |-> 0]
+        /\ zlo' = [ self \in ProcSet |-> 0]
+        /\ zhi' = [ self \in ProcSet |-> FALSE]
+        /\ wcnt' = [ self \in ProcSet |-> 0]
+        /\ lw' = [ self \in ProcSet |-> 0]
+        (* Procedure unlock_slow *)
+        /\ lt_u' = [ self \in ProcSet |-> defaultInitValue]
+        /\ old_u' = [ self \in ProcSet |-> 0]
+        /\ tc' = [ self \in ProcSet |-> FALSE]
+        /\ nwl' = [ self \in ProcSet |-> <<>>]
+        /\ wtrs' = [ self \in ProcSet |-> <<>>]
+        /\ wake' = [ self \in ProcSet |-> <<>>]
+        /\ wty' = [ self \in ProcSet |-> 0]
+        /\ sor' = [ self \in ProcSet |-> 0]
+        /\ cor' = [ self \in ProcSet |-> 0]
+        /\ rmq_' = [ self \in ProcSet |-> <<>>]
+        /\ late' = [ self \in ProcSet |-> 0]
+        (* Procedure mu_lock *)
+        /\ lt_m' = [ self \in ProcSet |-> defaultInitValue]
+        /\ old_m' = [ self \in ProcSet |-> 0]
+        (* Procedure mu_trylock *)
+        /\ lt_mu' = [ self \in ProcSet |-> defaultInitValue]
+        /\ old_mu' = [ self \in ProcSet |-> 0]
+        (* Procedure mu_unlock *)
+        /\ lt_mu_' = [ self \in ProcSet |-> defaultInitValue]
+        /\ ww' = [ self \in ProcSet |-> defaultInitValue]
+        /\ old_mu_' = [ self \in ProcSet |-> 0]
+        (* Procedure sem_wait *)
+        /\ sdl' = [ self \in ProcSet |-> defaultInitValue]
+        /\ scn' = [ self \in ProcSet |-> defaultInitValue]
+        (* Procedure try_acquire *)
+        /\ lt' = [ self \in ProcSet |-> defaultInitValue]
+        /\ rc' = [ self \in ProcSet |-> defaultInitValue]
+        /\ old_t' = [ self \in ProcSet |-> 0]
+        (* Procedure mu_wait *)
+        /\ c' = [ self \in ProcSet |-> defaultInitValue]
+        /\ dl_' = [ self \in ProcSet |-> defaultInitValue]
+        /\ cn_' = [ self \in ProcSet |-> defaultInitValue]
+        /\ old_mu_w' = [ self \in ProcSet |-> 0]
+        /\ lt_' = [ self \in ProcSet |-> 0]
+        /\ first' = [ self \in ProcSet |-> TRUE]
+        /\ out_' = [ self \in ProcSet |-> 0]
+        /\ rc_' = [ self \in ProcSet |-> 0]
+        /\ hadw' = [ self \in ProcSet |-> FALSE]
+        /\ ata' = [ self \in ProcSet |-> 0]
+        /\ so_' = [ self \in ProcSet |-> 0]
+        /\ havel' = [ self \in ProcSet |-> FALSE]
+        (* Procedure wake_waiters *)
+        /\ tw' = [ self \in ProcSet |-> defaultInitValue]
+        /\ allr' = [ self \in ProcSet |-> defaultInitValue]
+        /\ omw' = [ self \in ProcSet |-> 0]
+        /\ fca' = [ self \in ProcSet |-> FALSE]
+        /\ sorw' = [ self \in ProcSet |-> 0]
+        (* Procedure cv_wake *)
+        /\ all' = [ self \in ProcSet |-> defaultInitValue]
+        /\ old_c' = [ self \in ProcSet |-> 0]
+        /\ tws' = [ self \in ProcSet |-> <<>>]
+        /\ alr' = [ self \in ProcSet |-> FALSE]
+        /\ rmq' = [ self \in ProcSet |-> <<>>]
+        (* Procedure cv_wait *)
+        /\ dl' = [ self \in ProcSet |-> defaultInitValue]
+        /\ cn' = [ self \in ProcSet |-> defaultInitValue]
+        /\ gen' = [ self \in ProcSet |-> defaultInitValue]
+        /\ old_cv' = [ self \in ProcSet |-> 0]
+        /\ lt_c' = [ self \in ProcSet |-> 0]
+        /\ rc_c' = [ self \in ProcSet |-> 0]
+        /\ so' = [ self \in ProcSet |-> 0]
+        /\ out' = [ self \in ProcSet |-> 0]
+        (* Procedure wait_n *)
+        /\ ndl' = [ self \in ProcSet |-> defaultInitValue]
+        /\ old' = [ self \in ProcSet |-> 0]
+        /\ wq' = [ self \in ProcSet |-> FALSE]
+        (* Procedure debug_state *)
+        /\ dw' = [ self \in ProcSet |-> 0]
+        /\ k' = [ self \in ProcSet |-> 0]
+        (* Procedure debug_cv *)
+        /\ cdw' = [ self \in ProcSet |-> 0]
+        /\ ck' = [ self \in ProcSet |-> 0]
+        /\ stack' = [self \in ProcSet |-> << >>]
+        /\ pc' = [self \in ProcSet |-> "c0"]
+\* END GENERATED
 \* ---- graph export (DESIGN 3.3) ----
 Moved(a) == pc[a] # pc'[a] \/ ip[a] # ip'[a]
 Actor == IF \E a \in Threads : Moved(a) THEN CHOOSE a \in Threads : Moved(a) ELSE 0
